@@ -95,10 +95,13 @@ def run(chk: Check) -> None:
                     cur = getattr(n, "_parent", None)
                     prev: ast.AST = n
                     while cur is not None and cur is not f.node:
-                        if isinstance(cur, ast.If) and prev in cur.body and p in unparse(cur.test):
+                        if isinstance(cur, ast.If) and prev in cur.body:
                             cs.append(unparse(cur.test).replace(p, "$"))
                         prev, cur = cur, getattr(cur, "_parent", None)
-                    conds[(b[1], k)] = " & ".join(sorted(set(cs)))
+                    prev_c = conds.get((b[1], k))
+                    cur_c = " & ".join(sorted(set(cs)))
+                    if prev_c is None or len(cur_c) < len(prev_c):
+                        conds[(b[1], k)] = cur_c
             if isinstance(n, ast.Call) and attr_path(n.func) == ("isinstance",) and len(n.args) == 2 \
                     and attr_path(n.args[0]) == (p,):
                 guards.append(unparse(n.args[1]))
@@ -160,6 +163,9 @@ def run(chk: Check) -> None:
             chk.ob("R10.3", construct, ok, loc, msg, facts)
             n += 1
     chk.floor("R10.3", "index halves of the node-set primitives", n, 2)
+    for prop, rule, construct, ok, loc, msg, facts in own.obs:
+        if prop == "C04" and rule in ("R03.3", "R03.5") and ("_NodeSet" in construct or "SetWrapper" in construct):
+            chk.ob("R10.3", construct, ok, loc, msg, facts)
     notify_protocol(chk, "R10.3")
     # Module._index_add/_index_discard are what the descriptor calls
     for ia in ("name", "_payload"):
